@@ -54,6 +54,7 @@ func init() {
 	register("c13gaps", func(args []string) int {
 		fs := flag.NewFlagSet("c13gaps", flag.ExitOnError)
 		casesPath := fs.String("cases", "", "cases ndjson (spec/Gaps.tla)")
+		pairsPath := fs.String("pairs", "", "pairs ndjson {a, b}: two texts that differ in a note only")
 		out := fs.String("out", "-", "mismatch ndjson")
 		lenMode := fs.Bool("len", false, "C14: every accepted spelling that ends with its last token, followed by a line break and foreign text: Len = its length")
 		fs.Parse(args)
@@ -210,6 +211,21 @@ func init() {
 				}
 			}
 		})
+		if *pairsPath != "" {
+			readLines(openIn(*pairsPath), func(line []byte) {
+				var p struct{ A, B string }
+				if err := json.Unmarshal(line, &p); err != nil {
+					fatal(err)
+				}
+				a := guard(func() error { return gapSchema(p.A).Check() })
+				b := guard(func() error { return gapSchema(p.B).Check() })
+				evals += 2
+				if a.OK != b.OK || a.Kind == "panic" || b.Kind == "panic" {
+					mism++
+					w.Write(gapMismatch{p.B, p.A, fmt.Sprintf("with the notes: %v (%d %s), without them: %v (%d %s)", b.OK, b.Code, b.Msg, a.OK, a.Code, a.Msg)})
+				}
+			})
+		}
 		bb, _ := json.Marshal(map[string]int{"spellings": n, "mismatches": mism, "evaluations": evals, "schemas": len(bases)})
 		fmt.Fprintln(os.Stderr, "@@SUMMARY "+string(bb))
 		return 0
